@@ -374,6 +374,32 @@ impl NetcodeClient {
     }
 }
 
+#[cfg(feature = "verif")]
+impl NetcodeClient {
+    /// Canonical read-only dump of the client state (verification hook).
+    pub fn verif_dump(&self) -> String {
+        format!(
+            "state={:?} id={} now={} start={} send={} recv={} seq={} addr={} idx={} cseq={} max={} cidx={} rp{{{}}}",
+            self.state,
+            self.client_id,
+            self.current_time.as_nanos(),
+            self.connect_start_time.as_nanos(),
+            match self.last_packet_send_time {
+                None => "-".to_string(),
+                Some(t) => t.as_nanos().to_string(),
+            },
+            self.last_packet_received_time.as_nanos(),
+            self.sequence,
+            self.server_addr,
+            self.server_addr_index,
+            self.challenge_token_sequence,
+            self.max_clients,
+            self.client_index,
+            self.replay_protection.verif_dump()
+        )
+    }
+}
+
 #[cfg(test)]
 mod tests {
     use crate::{crypto::generate_random_bytes, NETCODE_MAX_PACKET_BYTES};
